@@ -26,7 +26,7 @@ ANCHORS = [("leuvenmapmatching/matcher/base.py", "BaseMatcher._match_states"),
            ("leuvenmapmatching/map/sqlite.py", "SqliteMap.nodes_nbrto"),
            ("leuvenmapmatching/map/sqlite.py", "SqliteMap.edges_nbrto")]
 FLOORS = {"consecutive_pairs": 6000, "pairs_inside_nonemitting_runs": 700, "paths_judged": 4000, "nodes_only_views": 3000, "linked_edge_maps": 200,
-          "sqlite_maps": 200, "oneway_maps": 800, "selfloop_maps": 300, "uturn_moves": 100, "linked_moves": 5, "nodes_only_views_ok": 0}
+          "sqlite_maps": 200, "oneway_maps": 800, "selfloop_maps": 300, "uturn_moves": 100, "linked_moves": 5}
 ASSUMPTIONS = ["after continue_with_distance (a jump operation) only the existence of the states is judged, as the property states"]
 
 
